@@ -36,6 +36,16 @@ def canon_cmd(ans):
 def targets_for(rng, hist, info, cmd, rows):
     ids = [r["id"] for r in hist]
     labels = [l for r in hist for l in r.get("labels", [])]
+    line = sorted(i for i in ids if i[2:5] == "c0f")
+    if len(line) >= 13 and cmd in ("upgrade", "downgrade"):
+        # a long line (gen_graph.deep_line_history): mostly offsets of two digits
+        lo, hi = rng.choice(line[:3]), rng.choice(line[-3:])
+        if cmd == "upgrade":
+            deep = ["+10", "+11", "+12", lo + "+10", lo + "+11", lo + "+12", "trunk@+10", "trunk@+11", hi + "-10", "trunk@head-10",
+                    "heads", lo + "+2", "+1"]
+        else:
+            deep = ["-10", "-11", hi + "-10", hi + "-11", hi + "-12", "trunk@-10", "trunk@" + hi + "-11", "base", hi + "-2", "-1"]
+        return deep
     if cmd == "upgrade":
         pool = ["heads", "head", "base"] + ids + [i + "+1" for i in ids[:3]] + ["+1", "+2", "+3"]
         for l in labels:
@@ -121,6 +131,10 @@ def final_rows(impl, rows):
 
 def random_histories(ctx, rng, n_graphs, size_lo, size_hi, labels=True, collide=False):
     for k_ in range(n_graphs):
+        if k_ % 40 == 7:
+            # a long line: relative targets with two-digit offsets
+            yield gen_graph.deep_line_history(rng)
+            continue
         if k_ % 12 == 5:
             # descriptive ids, one contained in another, lineages tied by depends_on
             yield gen_graph.descriptive_history(rng)
@@ -398,6 +412,10 @@ def judge(ctx, focus, collected, sds):
                 # the downgrade to one branch; for every other spelling the oracle judges the plan
                 # against ALL down-revision children of the target, whatever the implementation chose
                 pt = dict(pt, branch=None)
+            elif pt is not None and isinstance(c["target"], str) and re.fullmatch(r"-\d+", c["target"]) and c["rows"]:
+                # the bare `-N` is restricted to the branch of the first current row (C16.rel_dgrade_row),
+                # whether or not the implementation says so
+                pt = dict(pt, branch=c["rows"][0])
             if pt is not None and ("steps" in impl or impl.get("err") == "rangeNotAncestor"):
                 if "steps" in impl:
                     plan = [s["rev"] for s in impl["steps"]]
